@@ -159,6 +159,11 @@ func (st *SymbolTable) SetParams(params ...string) error {
 // Resolve resolves a symbol with a given name.
 func (st *SymbolTable) Resolve(name string) (symbol *Symbol, ok bool) {
 	symbol, ok = st.store[name]
+	if ok && symbol.Scope == ScopeBuiltin && st.isBuiltinDisabled(name) {
+		// builtin is disabled after it was resolved and cached
+		delete(st.store, name)
+		symbol, ok = nil, false
+	}
 	if !ok && st.parent != nil {
 		symbol, ok = st.parent.Resolve(name)
 		if !ok {
